@@ -78,6 +78,10 @@ def run(tier, seed):
             # every one of its writes is a fault point, not a sample
             for k in range(1, len(calls) + 1):
                 if k not in ks and calls[k - 1]['call'] == 'write': jobs.append((hi, k, 'f')); jobs.append((hi, k, 's'))
+            # ... and a failing write followed by the death of the daemon before it gets to checkpoint again: what the failed round
+            # has put into place stays, and has to be whole
+            for k in range(1, len(calls) + 1):
+                if calls[k - 1]['call'] == 'write': jobs.append((hi, k, 'd'))
     # every history also runs once, without a fault, on the sanitizer build of the daemon code (a report ends the process: the daemon
     # died without our doing), e.g. pointers kept into an array across its growth in the all-users checkpoint
     B2 = vlib.build('asan'); drv2 = daemon.build_driver(B2)
@@ -102,7 +106,7 @@ def run(tier, seed):
         derived = {'fault_call': calls[0]['call'] if calls else 'none', 'nusers': len(set(f['user'] for f in rec['files'])), 'uid_moves_between_users': uid_moves(rec['script'])}
         bad.append((vlib.save_replay(PID, f'exp{g}.json', rec), dict(rec, **derived)))
     unlisted, listed = vlib.classify(PID, bad)
-    ncrash = sum(1 for j in jobs if j[2] == 'c'); nfail = sum(1 for j in jobs if j[2] in ('f', 's'))
+    ncrash = sum(1 for j in jobs if j[2] == 'c'); nfail = sum(1 for j in jobs if j[2] in ('f', 's', 'd'))
     cov = {'evaluations': len(recs), 'distinct_nontrivial': len(recs) - nh,
            'rule': 'one case = (request history, k, mode): the history runs on the real daemon code with its checkpoint system calls (openat/write/close/renameat/unlinkat of .echsq_<uid>.ics) interposed; at the k-th such call the process dies (mode c), or the call fails once with EIO (f), or a write is short (s); then a fresh daemon process loads the spool. Every call of every checkpoint of the history is a fault point (quick: at most 40 per history). Histories: 2 users, fat tasks forcing several 4 KiB flushes, 17 users overflowing the 16-slot dirty array, and (fault-free only) sweeps of 50 tasks of more than 4 KiB whose lengths are one apart, so that a printed piece ends on every position around the end of the print buffer. every history also runs fault-free on the -fsanitize=address,bounds build. Non-trivial = a fault was injected',
            'samples': [{'history': hist[0][0][:3], 'k': jobs[1][1], 'mode': jobs[1][2], 'files': recs[1]['files'], 'armed': recs[1]['armed']}],
